@@ -30,6 +30,7 @@ Definition e_run (r : list report * list obs) : sexp := e_pair (e_list e_report)
    5: BST engine run, errors captured        arg (db citations min_crossrefs fields)
    6: Python engine format_bibliography, errors captured    (same)
    7, 8: the same two in strict mode (the first report raises)
+   10: both engine runs (end-to-end stream)             arg (db citations min_crossrefs fields)
    9: Entry._find_field for every entry x every name   arg (db names use_bib_data) *)
 Definition dispatch (fn : Z) (a : sexp) : sexp :=
   let d := d_db (d_nth a 0) in
@@ -50,6 +51,8 @@ Definition dispatch (fn : Z) (a : sexp) : sexp :=
   | 9%Z => let bd := if d_bool (d_nth a 2) then Some d else None in
            e_list (fun ke : str * entry =>
                      e_list (fun nm => e_res (e_opt e_str) (entry_find_field bd (snd ke) nm)) (d_list d_str (d_nth a 1))) d
+  | 10%Z => let cs := d_list d_str (d_nth a 1) in let fs := d_list d_str (d_nth a 3) in
+            L [e_res e_run (bst_run d cs (d_Z (d_nth a 2)) fs); e_res e_run (format_bibliography d cs (d_Z (d_nth a 2)) fs)]
   | _ => L []
   end.
 
